@@ -92,6 +92,13 @@ CLAIMED["C01"] = ("DESIGN.md §4 C01",
     "trusted: pysym; repr/Decimal digit contract; int/int division correctly rounded; sigfig identity on <=15 digits; string "
     "table stub; outside: tiles/protobuf/snappy/zip/reopen, sub-second dates and durations, text characters")
 
+CLAIMED["C02"] = ("DESIGN.md §4 C02",
+    "Per-record re-save fix-point on the real codec: for 116 symbolic record bytes of each storable kind carrying only "
+    "fields the writer knows, decode -> encode -> decode gives the same class, payload and ids, reading accessors in "
+    "between changes nothing, and a second encode is byte-identical. The document-level quantifier is outside this technique.",
+    "trusted: pysym; decimal128 pack/unpack treated as mutually inverse uninterpreted functions here (C01 decides values); "
+    "string table stub; outside: whole documents, fixtures, formula text, bullets, merge maps, IWA copy-back")
+
 NOT_APPLICABLE = {}
 
 
